@@ -1,29 +1,71 @@
-"""CX6 (coverage extension) the OpAMP agent reports remote configurations as APPLIED exactly when they are in force, keeps upstream's effective configuration, health and usage faithful, and ends with Stop."""
+"""CX6 (coverage extension) the OpAMP agent reports a remote configuration as APPLIED exactly when it is in force and as FAILED (with the error) when it was refused, keeps upstream's copy of the effective configuration, the health and the usage faithful, and Stop ends its goroutines."""
 
 _H = ["agent/cx6_opamp_test.go"]
 
 
-def _walk(name, q, t, budget, alts=False, **kw):
-    st = dict(kind="walk", name=name, module="OpAMP", pkg="agent", test="TestVerifCX6OpAMP", harness=_H, budget=budget, **kw)
-    if alts:
+def _walk(name, q, t, budget, open_=None, **kw):
+    st = dict(kind="walk", name=name, module="OpAMP", pkg="agent", test="TestVerifCX6OpAMP", harness=_H, budget=budget, maxwalk=48, **kw)
+
+    def cfg(sfx):
+        return {"quick": f"MC_OpAMP_{q}{sfx}.cfg" if q else None, "thorough": f"MC_OpAMP_{t}{sfx}.cfg"}
+    if open_ == "retry":
         # what a message repeating the hash of a FAILED configuration does is left open: handled again (the code) or skipped
-        st["alternatives"] = [dict(name="retry-failed", cfg={"quick": f"MC_OpAMP_{q}.cfg", "thorough": f"MC_OpAMP_{t}.cfg"}),
-                              dict(name="skip-failed", cfg={"quick": f"MC_OpAMP_{q}_noretry.cfg", "thorough": f"MC_OpAMP_{t}_noretry.cfg"})]
+        st["alternatives"] = [dict(name="retry-failed", cfg=cfg("")), dict(name="skip-failed", cfg=cfg("_noretry"))]
+    elif open_ == "zero":
+        # whether a usage report of zeros is sent is left open: iff the tracker has an entry (the code) or never
+        st["alternatives"] = [dict(name="keys", cfg=cfg("")), dict(name="never", cfg=cfg("_never"))]
     else:
-        st["cfg"] = {"quick": f"MC_OpAMP_{q}.cfg", "thorough": f"MC_OpAMP_{t}.cfg"}
+        st["cfg"] = cfg("")
     return st
+
+
+def _tlc(name, cfg, workers=8):
+    return dict(kind="tlc", name=name, module="OpAMP", cfg={"quick": None, "thorough": cfg}, workers=workers, tiers=("thorough",), timeout=600)
 
 
 PROP = dict(
     level="model_checking",
-    technique="TLA+ spec OpAMP.tla model-checked by TLC",
-    design_ref="DESIGN.md §5 CX6",
-    level_text="",
-    level_note="",
-    assumptions=[],
+    technique="TLA+ spec OpAMP.tla (agent.Agent between the OpAMP client, Config.Reload, health.Reporter, the metrics store and the usage tracker: one action per callback / loop round - OnMessage per "
+              "remote configuration, OnMessage without one, GetEffectiveConfig poll, health tick, usage tick per client answer, Ack of a held message, Stop - plus the environment) model-checked by TLC; "
+              "every generated transition replayed into a real Agent wired, as connect() wires it, to a fake OpAMP client that keeps what the server would know, a REAL fileConfig over temp files "
+              "(config.NewConfig, running version v3.0.0; the delivered bodies go through the real WithConfigData / WithRulesData Reload), health.MockHealthReporter, a map-backed metrics store and "
+              "hand-fired tickers, inside a testing/synctest bubble (spec->code transition tour)",
+    design_ref="DESIGN.md §0.5 coverage extensions (CX6); spec/OpAMP.tla header",
+    level_text="TLC explores every order of remote configurations from a catalogue (config body valid / valid with a warning / refused / RecordUsage off; rules body valid / refused; config only, rules only, both, "
+               "a config map without a Refinery document, no config map, the same bodies under a new hash, the same hash again after APPLIED and after FAILED), effective-config polls, health reporter changes, "
+               "health ticks, counter growth, usage ticks answered ok / error / pending-then-ok / accepted-but-held, Ack, and Stop, and checks: AppliedIsInForce (upstream sees APPLIED for hash h only while "
+               "exactly what h delivered is in force, never with an error text), FailedIsRefused (FAILED only for a refused delivery, with the error), RefusedKeepsOld, StatusProtocol (a handled message is "
+               "announced APPLYING then closed APPLIED/FAILED for its own hash; APPLIED iff Reload applied it, warnings-only and unchanged included), NoReapply (the hash already APPLIED is not handled again), "
+               "NewHashHandled, OnlyMessagesApply, EffectiveInForce (upstream's copy of the effective configuration always equals the configuration in force), HealthFollows (after a health tick upstream's "
+               "health is alive AND ready), Conservation / NoDoubleCount / ReportCarriesAll / OnlySentDelivers (acknowledged + unconfirmed + unreported + unsampled usage = growth of the counters feeding the "
+               "signal, across failed and held sends; sampling only while OpAMP.RecordUsage is on), StopUnhealthy and StopEnds (ideal design; the code model MC_OpAMP_code_cex.cfg fails it). Every generated "
+               "transition is executed on the real Agent and these observations must equal the model's: the statuses handed to the client during the step and the one it holds (hash, status, error text present and "
+               "containing Reload's error), what Config.Reload did (not called / applied / warn / unchanged / refused, judged by its result and the reload callbacks), the values in force read through the "
+               "configuration's getters, composeEffectiveConfig() decoded, the effective configuration the client holds, the health the client holds, the usage per signal parsed from every offered OTLP-JSON "
+               "payload and from the payloads the client sent, whether a message is held, the agent goroutines that exist, client stopped.",
+    level_note="Exhaustive only within the bounds (<= 11 remote configurations over files A/A; counters <= 1-2; 3 or 6 counters feeding 2 or 4 signals; one usage send at a time). connect()/NewAgent are not executed "
+               "(they build a websocket client): the harness repeats connect()'s calls on the fake client, registers the same callbacks and starts the same two loops, so capabilities, start settings and the "
+               "real opamp-go client (its dedup of equal statuses, reconnects) are outside the check. Readings: what is in force is identified by the delivered layers (fileConfig.reload re-reads the files and "
+               "appends the delivered bodies; a message with only a rules body therefore reverts a config body delivered earlier - modelled as the code does, not judged); the same hash is compared with the "
+               "last REPORTED status as the code does (after a config map without a Refinery document, which is remembered but not reported, an earlier APPLIED hash is still skipped); a message repeating a "
+               "FAILED hash may be handled again (code) or skipped, a usage report of zeros may be sent iff the tracker has an entry (code) or never (alternatives); a remote configuration without a hash is "
+               "outside the statement (the real client refuses its status) and not driven. Health is compared after whole ticks only (a tick between Stop's SetHealth and the cancellation is not explored); "
+               "the fine-grained interleavings of sendUsageReport with sampling are C34's (Usage.tla), here a usage tick is atomic. On the unchanged tree one departure is reproduced and reported as "
+               "KNOWN-FINDING: health-loop-survives-stop (healthCheck has no return on ctx.Done(): after Stop the goroutine spins; pending_fixes/CX6-health-loop-survives-stop.diff). To observe it without hanging, "
+               "the agent's context is a harness type that counts Done() requests after the cancellation (> 1000 from one loop without blocking = alive and spinning, then ended with runtime.Goexit); a loop that "
+               "spins without consulting its context would hang the harness (cannot-decide, not a violation). Nothing is modelled after Stop. testing/synctest (Go 1.25) is trusted for quiescence.",
+    assumptions=["testing/synctest quiescence (Wait) is faithful", "the fake OpAMP client stands for the server's view (last status / effective config / health handed over, custom messages accepted and sent)",
+                 "content classes are validated against the real Reload at harness start (running version v3.0.0: Collection.CacheCapacity only warns)",
+                 "one OnMessage at a time (the client calls it from its receive goroutine)", "the sampled counters never decrease",
+                 "bounded: <= 11 remote configurations, counters <= 2, <= 6 counters / 4 signals"],
     stages=[
-        _walk("config", "config_q", "config_t", {"quick": 25, "thorough": 120}, alts=True),
-        _walk("health", "health_q", "health_t", {"quick": 15, "thorough": 90}),
-        _walk("usage", "usage_q", "usage_t", {"quick": 25, "thorough": 240}),
+        _walk("config", "config_q", "config_t", {"quick": 25, "thorough": 60}, open_="retry"),
+        _walk("health", "health_q", "health_t", {"quick": 20, "thorough": 75}),
+        _walk("usage", "usage_q", "usage_t", {"quick": 20, "thorough": 90}, open_="zero"),
+        _walk("record-usage", "record_q", "record_t", {"quick": 15, "thorough": 60}, open_="zero"),
+        _walk("usage-six", None, "usage6_t", {"thorough": 45}, open_="zero", tiers=("thorough",)),
+        _tlc("ideal", "MC_OpAMP_ideal.cfg"),                  # everything together, Stop ends every loop
+        _tlc("ideal-skip-failed", "MC_OpAMP_ideal_noretry.cfg", workers=4),
+        _tlc("ideal-never-zero", "MC_OpAMP_ideal_never.cfg", workers=4),
     ],
 )
